@@ -143,3 +143,56 @@ func verifLockEvents() int     { return 0 }
 // monitor counters). Natively nothing can be observed, so it never fails there;
 // an engine failure is confirmed by the harness's native demonstration mode.
 func verifMonitorAssert(c bool, what string) {}
+
+// verifNoRawFlow: the autoescape obligation. render(x) renders a template with
+// the tainted context text x. Engine: byte provenance - no output byte whose
+// term depends on a symbolic input byte may be able to equal < > & " ' under
+// the path condition (constant bytes such as the <p> of linebreaks or the & of
+// an entity do not depend on x and are not constrained). Native (replay of a
+// solver model): differential - replacing a special character of x by a letter
+// must not lower the number of raw occurrences of that character in the output.
+func verifNoRawFlow(render func(string) (string, bool), x string, what string) {
+	out, ok := render(x)
+	if !ok {
+		return
+	}
+	count := func(s string, c byte) int {
+		n := 0
+		for i := 0; i < len(s); i++ {
+			if s[i] != c {
+				continue
+			}
+			if c == '&' {
+				rest := s[i:]
+				ent := false
+				for _, e := range []string{"&amp;", "&lt;", "&gt;", "&quot;", "&#39;"} {
+					if len(rest) >= len(e) && rest[:len(e)] == e {
+						ent = true
+					}
+				}
+				if ent {
+					continue
+				}
+			}
+			n++
+		}
+		return n
+	}
+	for _, c := range []byte{'<', '>', '"', '\'', '&'} {
+		has := false
+		b := []byte(x)
+		for i := range b {
+			if b[i] == c {
+				has = true
+				b[i] = 'q'
+			}
+		}
+		if !has {
+			continue
+		}
+		out2, ok2 := render(string(b))
+		if ok2 && count(out, c) > count(out2, c) {
+			panic(verifFailure{what})
+		}
+	}
+}
